@@ -27,6 +27,7 @@ structure ObsEq (a b : State) : Prop where
   nonce     : a.nonce = b.nonce
   evm       : a.evm = b.evm
   fault     : a.fault = b.fault
+  impl      : a.impl = b.impl
   env       : a.env = b.env
 
 /-- the round trip of one state: the export validates, the import succeeds, every query is
